@@ -55,7 +55,10 @@ def gen_case(rng: random.Random, thorough=False, cli=False):
             'force_bad': rng.choice(['none', 'first', 'last', 'boundary', 'all3']),
             'trail_nl': rng.random() < 0.8, 'target_only': rng.random() < 0.6,
             'heuristic': 'Constant' if rng.random() < 0.06 and not cli else 'MI-numba-randomized',
-            'card_names': rng.random() < 0.15, 'take': None}
+            'card_names': rng.random() < 0.15, 'take': None,
+            # per-batch combination cap: mostly not binding; small caps make different pairs be scored in different batches, so a
+            # pair can appear for the first time in a LATER batch (checkpoints / medians must still cover every batch so far)
+            'cap': rng.choice([2048, 2048, 2048, 1, 2, 3]) if not cli else 2048}
 
 
 def build(case):
@@ -148,7 +151,7 @@ def argkw(case):
     return dict(minibatch_size=case['B'], subsampling=case['sub'], heuristic=case.get('heuristic', 'MI-numba-randomized'),
                 target_ranking_only='True' if case.get('target_only', True) else 'False',
                 include_cardinality_in_feature_names='True' if case.get('card_names') else 'False',
-                combination_number_upper_bound=2048)
+                combination_number_upper_bound=case.get('cap', 2048))
 
 
 # ---------------------------------------------------------------------------------------------
